@@ -64,7 +64,7 @@ func (f *Dolist) Call(s *slip.Scope, args slip.List, depth int) slip.Object {
 			slip.TypePanic(s, depth, "dolist input var", input[0], "symbol")
 		}
 		sym = slip.Symbol(strings.ToLower(string(sym)))
-		switch t1 := ns.Eval(input[1], d2).(type) {
+		switch t1 := slip.PrimaryValue(ns.Eval(input[1], d2)).(type) {
 		case nil:
 			// leave list as empty list
 		case slip.List:
